@@ -1035,10 +1035,12 @@ def text_to_rows(tier, rng):
     from . import c05, values
     cases = c05.e2e_cases(tier, rng)
     fixed = [c for c in cases if c['rule'] == 'e2e:fixed']
-    rand = [c for c in cases if c['rule'] != 'e2e:fixed']
+    lib = [c for c in cases if c['rule'].startswith('e2e:lib')]      # bld-link: statements over the C18 library functions
+    rand = [c for c in cases if c['rule'] != 'e2e:fixed' and not c['rule'].startswith('e2e:lib')]
     if tier == 'quick':
         rand = rand[:280]
-    cases = rand + fixed
+        lib = lib[:120]
+    cases = rand + lib + fixed
     # the same statements respelled: upper/lower keywords, extra blanks and a comment (the front end must not care)
     for c in list(rand[:40]):
         t = c['text']
@@ -1080,7 +1082,8 @@ def text_to_rows(tier, rng):
                     {'case': c, 'impl': r['result'], 'model': m, 't2r': True}, signature=sig)
     cov = {'t2r_statements': len(cases), 't2r_compared': compared, 't2r_rows_compared': rows_compared,
            't2r_not_lowerable': hist['model'].get('not-lowerable', 0), 't2r_not_translatable': hist['model'].get('not-translatable', 0),
-           't2r_histograms': hist, 't2r_samples': [c['text'] for c in cases[:3]]}
+           't2r_histograms': hist, 't2r_samples': [c['text'] for c in cases[:3]],
+           't2r_library_statements': len(lib), 't2r_library_functions': c05.lib_function_counts(cases, models)}
     return cov, list(violations.values())
 
 
